@@ -9,7 +9,8 @@ ORACLES = {"c15"}
 
 
 def trace_task(seed):
-    spec = wp.spec_from_seed(seed, boundary=False, finite_clock=None)
+    big = seed % 6 == 0  # a sixth of the runs: tens of mutations, five samples
+    spec = wp.spec_from_seed(seed, boundary=False, finite_clock=None, n_mut=(12 + seed % 11) if big else None, n_samples=5 if big else None)
     out = judge_trace(spec)
     out["seed"] = seed
     if out["problems"]:
